@@ -51,12 +51,16 @@ SwapOut(t, call) ==
 
 \* execute.rs execute_spend_funds: local spends to protocol-chain ("osmo") addresses, IBC spends to
 \* native-chain ("celestia") addresses
+\* call.channel: "" = no channel given (None); EmptyChannel = a channel id was given and it is the empty string
+\* (still an IBC spend: the code decides on presence, not on content)
+EmptyChannel == "<empty>"
 Spend(t, call) ==
   LET ibc == call.channel # ""
       why == TR(call.s # t.admin, "unauthorized")
              \cup TR(~ibc /\ ~call.rosmo, "bad_local_receiver")
              \cup TR(ibc /\ ~call.rcel, "bad_ibc_receiver")
-      msg == IF ibc THEN [k |-> "t_ibc", channel |-> call.channel, den |-> call.den, amt |-> call.amt, rcv |-> call.receiver]
+      msg == IF ibc THEN [k |-> "t_ibc", channel |-> IF call.channel = EmptyChannel THEN "" ELSE call.channel,
+                          den |-> call.den, amt |-> call.amt, rcv |-> call.receiver]
              ELSE [k |-> "t_send", to |-> call.receiver, den |-> call.den, amt |-> call.amt]
   IN IF why # {} THEN TErr(t, why) ELSE TOk(t, <<msg>>)
 
